@@ -5,6 +5,7 @@ import (
 	"errors"
 	"fmt"
 	"strings"
+	"sync"
 	"testing"
 	"testing/synctest"
 	"time"
@@ -25,6 +26,7 @@ type ocCase struct {
 	Workers int
 	GraceMS int
 	Ops     []oop
+	Derive  int // every admitted reader derives this many child contexts from the context it was given (cancelling the reader takes that much longer)
 }
 
 func (c ocCase) String() string {
@@ -36,7 +38,7 @@ func (c ocCase) String() string {
 			p = append(p, fmt.Sprintf("%s(w%d)", o.Kind, o.W))
 		}
 	}
-	return fmt.Sprintf("outercancel{workers=%d grace=%dms ops=[%s]}", c.Workers, c.GraceMS, strings.Join(p, " "))
+	return fmt.Sprintf("outercancel{workers=%d grace=%dms derive=%d ops=[%s]}", c.Workers, c.GraceMS, c.Derive, strings.Join(p, " "))
 }
 
 var errVerifCancel = errors.New("verif: outer cancel")
@@ -72,7 +74,9 @@ func runOuterCancel(t *testing.T, c ocCase) (out ocOutcome, err error) {
 		for i := range st {
 			st[i] = &wstate{}
 		}
-		writer := -1 // worker holding or pending as writer
+		var admittedMu sync.Mutex
+		admitted := map[int][]context.Context{} // readers holding the lock (admitted, not released by themselves): everything derived from their context
+		writer := -1                            // worker holding or pending as writer
 		writerGranted := false
 		var writerProc time.Time // when the lock started handling the writer's request
 		queuedWriter := -1
@@ -186,6 +190,17 @@ func runOuterCancel(t *testing.T, c ocCase) (out ocOutcome, err error) {
 					rctx, cancel, e := oc.RLock(parent)
 					s.rctx, s.cancel, s.rerr = rctx, cancel, e
 					s.grantedAt = time.Now()
+					if e == nil && rctx != nil {
+						kids := []context.Context{rctx}
+						for i := 0; i < c.Derive; i++ {
+							k, kc := context.WithCancel(rctx)
+							_ = kc
+							kids = append(kids, k)
+						}
+						admittedMu.Lock()
+						admitted[w] = kids
+						admittedMu.Unlock()
+					}
 				})
 				synctest.Wait()
 				if writer >= 0 {
@@ -206,6 +221,9 @@ func runOuterCancel(t *testing.T, c ocCase) (out ocOutcome, err error) {
 				if s.role != "r" || s.waiting || ws.ws[w].busy {
 					continue
 				}
+				admittedMu.Lock()
+				delete(admitted, w)
+				admittedMu.Unlock()
 				if !s.released && s.rerr == nil {
 					if writer >= 0 && !writerGranted {
 						out.writerWaitedRelease = true
@@ -259,6 +277,18 @@ func runOuterCancel(t *testing.T, c ocCase) (out ocOutcome, err error) {
 				ws.issue(w, func() {
 					s.cancel = oc.Lock()
 					s.grantedAt = time.Now()
+					// at the very instant the writer is granted, every reader admitted before it has been told to stop:
+					// its context - and everything derived from it - is done
+					admittedMu.Lock()
+					defer admittedMu.Unlock()
+					for r, kids := range admitted {
+						for i, k := range kids {
+							if k.Err() == nil {
+								errs.Failf("writer w%d was granted while reader w%d had not been told to stop: context %d of the %d derived from the one RLock gave it is still live", w, r, i, len(kids))
+								return
+							}
+						}
+					}
 				})
 				if writer >= 0 {
 					queuedWriter = w
@@ -371,7 +401,7 @@ func runOuterCancel(t *testing.T, c ocCase) (out ocOutcome, err error) {
 func TestOuterCancel(t *testing.T) {
 	sec := vk.Sec("OuterCancel")
 	vk.Check(t, 12000, 4000000, func(rt *rapid.T) {
-		c := ocCase{Workers: rapid.IntRange(2, 6).Draw(rt, "workers"), GraceMS: rapid.SampledFrom([]int{10, 1000}).Draw(rt, "graceMS")}
+		c := ocCase{Workers: rapid.IntRange(2, 6).Draw(rt, "workers"), GraceMS: rapid.SampledFrom([]int{10, 1000}).Draw(rt, "graceMS"), Derive: rapid.SampledFrom([]int{0, 0, 8, 300}).Draw(rt, "derive")}
 		n := rapid.IntRange(1, 30).Draw(rt, "nops")
 		for i := 0; i < n; i++ {
 			w := rapid.IntRange(0, 5).Draw(rt, "w")
@@ -404,4 +434,51 @@ func TestOuterCancel(t *testing.T) {
 		sec.Case(out.writerWaitedGrace || out.writerWaitedRelease || out.readerQueuedBehindWriter, vk.FP(c.String()), cls...)
 		sec.Sample(func() any { return c.String() })
 	})
+}
+
+// TestOuterCancelQueuedCancel: readers queued behind a holding writer, some of them give up (their parent context ends)
+// while they are queued - in the handler, or still in the request channel behind another request. Whatever each RLock
+// call reports, afterwards nothing may be held on their behalf: once the writer has unlocked and the remaining readers
+// have released, the next writer is granted at once, not after the grace period. Repeated, because which request the
+// handler takes first is a random choice of the lock.
+func TestOuterCancelQueuedCancel(t *testing.T) {
+	sec := vk.Sec("OuterCancelQueuedCancel")
+	idx := 0
+	for k := 1; k <= 3; k++ {
+		for mask := 1; mask < 1<<k; mask++ {
+			for _, advBefore := range []string{"", "half"} {
+				for rep := 0; rep < vk.Pick(12, 300); rep++ {
+					idx++
+					if !vk.Mine(idx) {
+						continue
+					}
+					c := ocCase{Workers: k + 2, GraceMS: 1000}
+					c.Ops = append(c.Ops, oop{Kind: "wlock", W: 0})
+					for r := 1; r <= k; r++ {
+						c.Ops = append(c.Ops, oop{Kind: "rlock", W: r})
+					}
+					if advBefore != "" {
+						c.Ops = append(c.Ops, oop{Kind: "adv", Adv: advBefore})
+					}
+					for r := 1; r <= k; r++ {
+						if mask&(1<<(r-1)) != 0 {
+							c.Ops = append(c.Ops, oop{Kind: "parentcancel", W: r})
+						}
+					}
+					c.Ops = append(c.Ops, oop{Kind: "wunlock", W: 0})
+					for r := 1; r <= k; r++ {
+						c.Ops = append(c.Ops, oop{Kind: "release", W: r})
+					}
+					c.Ops = append(c.Ops, oop{Kind: "wlock", W: k + 1}, oop{Kind: "adv", Adv: "half"}, oop{Kind: "wunlock", W: k + 1})
+					if _, err := runOuterCancel(t, c); err != nil {
+						t.Fatalf("C13 locks violated: %v\ncase: %s", err, c)
+					}
+					if rep == 0 {
+						sec.Case(true, vk.FP(c.String()), "outercancel.gave-up-while-queued")
+						sec.Sample(func() any { return c.String() })
+					}
+				}
+			}
+		}
+	}
 }
